@@ -225,6 +225,25 @@ Theorem C13_loop_panic_halts : forall s t1 t2 pd k,
 Proof. exact loop_panic_halts. Qed.
 Print Assumptions C13_loop_panic_halts.
 
+(* 5b. oracle-set requests are computed (GetCurrentOracleSet, isNeedOracleSetRequest with the float power
+       difference of model.M_OsetPhase) and pruned (pruneOracleSet): pruning removes only sets past the window and
+       older than the set the external chain adopted *)
+Theorem C13_prune_only_old_observed : forall s x, In x (sets s) -> ~ In x (sets (prune_sets s)) ->
+  exists lo, last_obs s = Some lo /\ ob_height x < height s - p_window (prm s) /\ ob_nonce x < lo.
+Proof. exact prune_only_old_observed. Qed.
+Print Assumptions C13_prune_only_old_observed.
+
+Theorem C13_oset_request_nonvacuous :
+  let s1 := run w_init (w_setup ++ confirm_all 1 (-1)) in
+  map ob_nonce (sets s1) = [1] /\ set_mem s1 1 <> [] /\
+  map ob_nonce (sets (exec s1 (EndBlock 10 15 false))) = [1] /\
+  let s2 := run s1 [GovSet [1; 2; 3; 4; 5; 6] []; EndBlock 10 15 false] in
+  map ob_nonce (sets s2) = [1; 2] /\ length (set_mem s2 2) = 6%nat /\
+  let s3 := run s2 (confirm_all 2 0 ++ [ObserveSet 2; EndBlock 15 20 false; EndBlock 20 25 false; EndBlock 25 30 false]) in
+  map ob_nonce (sets s3) = [2] /\ last_obs s3 = Some 2 /\ recs s3 1 = recs s2 1.
+Proof. exact oset_request_nonvacuous. Qed.
+Print Assumptions C13_oset_request_nonvacuous.
+
 (* 6. unbonding.  [unbond_needs_entry] (gen/Gen_OracleSlash.v) is re-read from UnbondedOracle on every run:
       true = `if _, err = GetUnbondingDelegation(...); err != nil { return nil, err }` (the tree as it is).
       What an accepted UnbondedOracle does: pays balance - penalty once, deletes the records, a second call fails *)
